@@ -38,9 +38,9 @@ def deep_eq(a, b):
         return core.And(*conj) if conj else True
     if isinstance(a, AbsList) or isinstance(b, AbsList):
         if isinstance(a, list) and not isinstance(a, AbsList):
-            a = AbsList(b.name, 0, b.elem, list(a), b.params)
+            a = AbsList(b.name, 0, b.elem, list(a), b.params, b.base)
         if isinstance(b, list) and not isinstance(b, AbsList):
-            b = AbsList(a.name, 0, a.elem, list(b), a.params)
+            b = AbsList(a.name, 0, a.elem, list(b), a.params, a.base)
         if isinstance(a, AbsList) and isinstance(b, AbsList):
             return a.equals(b)
         return False
@@ -92,9 +92,10 @@ class AbsList:
     _pyvc_symbolic = True
     _pyvc_islist = True
 
-    def __init__(self, name, n, elem, tail=None, params=()):
+    def __init__(self, name, n, elem, tail=None, params=(), base=0):
         self.name = name
         self.params = tuple(params)
+        self.base = base          # the abstract part holds elem(base) .. elem(base+n-1)
         self.n = n
         self.elem = elem
         self.tail = list(tail or [])
@@ -111,6 +112,7 @@ class AbsList:
         c = cur()
         it = _simp(_t(i))
         if not self.tail or c.branch(it < self._nt()):
+            it = _simp(it + _t(self.base))
             return self.elem(SInt(it) if _cval(it) is None else _cval(it))
         k = _simp(it - self._nt())
         kv = _cval(k)
@@ -142,8 +144,9 @@ class AbsList:
         n = _cval(self._nt())
         if n is None:
             raise Undecided("iteration over an abstract list without a loop contract")
+        b = _cval(_simp(_t(self.base)))
         for j in range(n):
-            yield self.elem(j)
+            yield self.elem(j + b if b is not None else SInt(_simp(_t(self.base) + j)))
         for x in self.tail:
             yield x
 
@@ -157,7 +160,7 @@ class AbsList:
         return cur().branch(toint(self._pyvc_len()) > 0)
 
     def _pyvc_as_list(self):
-        return AbsList(self.name, self.n, self.elem, self.tail, self.params)
+        return AbsList(self.name, self.n, self.elem, self.tail, self.params, self.base)
 
     def __delitem__(self, i):
         raise Undecided("del on an abstract list")
@@ -170,6 +173,8 @@ class AbsList:
         if self.name != o.name or len(self.params) != len(o.params) or \
                 not all(args_provably_equal(p, q) for p, q in zip(self.params, o.params)):
             raise Undecided("comparison of abstract lists with different element functions")
+        if not c.valid(_t(self.base) == _t(o.base)):
+            raise Undecided("comparison of abstract lists with different index bases")
         na, nb = self._nt(), o._nt()
         la = _simp(na + len(self.tail))
         lb = _simp(nb + len(o.tail))
@@ -183,14 +188,18 @@ class AbsList:
         elif c.valid(na <= nb):
             k = _cval(_simp(nb - na))
             if k is None:
-                raise Undecided("abstract list lengths differ by a symbolic amount")
-            pairs = [(self.tail[j], o.elem(SInt(_simp(na + j)))) for j in range(k)]
+                k = next((kk for kk in range(0, len(self.tail) + 1) if c.valid(nb - na == kk)), None)
+            if k is None:
+                raise Undecided("abstract list lengths differ by a symbolic amount: %s vs %s" % (na, nb))
+            pairs = [(self.tail[j], o.elem(SInt(_simp(_t(o.base) + na + j)))) for j in range(k)]
             pairs += list(zip(self.tail[k:], o.tail))
         elif c.valid(nb <= na):
             k = _cval(_simp(na - nb))
             if k is None:
+                k = next((kk for kk in range(0, len(o.tail) + 1) if c.valid(na - nb == kk)), None)
+            if k is None:
                 raise Undecided("abstract list lengths differ by a symbolic amount")
-            pairs = [(self.elem(SInt(_simp(nb + j))), o.tail[j]) for j in range(k)]
+            pairs = [(self.elem(SInt(_simp(_t(self.base) + nb + j))), o.tail[j]) for j in range(k)]
             pairs += list(zip(self.tail, o.tail[k:]))
         else:
             raise Undecided("cannot order abstract list lengths")
